@@ -467,6 +467,15 @@ func (m *writerModel) ruleW4(r *Rep, rule string) {
 		fn := wr.Parent()
 		r.Instance(rule, 1)
 		key := c.FnName(fn) + "#write-underlying"
+		// one member = one Write on the underlying writer: a direct Write, or
+		// io.Copy / WriteTo from a *bytes.Buffer (which hands its whole content
+		// over in one call). io.CopyN, io.CopyBuffer, a bufio layer … go through a
+		// copy loop and deliver a large member in pieces, so that between two of
+		// the underlying Writes the file ends in a partial block.
+		if how := wholeTransfer(wr); how != "" {
+			r.Instance(rule, 1)
+			r.Fail(rule, key+":whole", c.Pos(wr.Pos()), how)
+		}
 		switch {
 		case reach[fn]:
 			r.Pass(rule, key, c.Pos(wr.Pos()), "in code run by the emitting goroutine")
@@ -481,6 +490,43 @@ func (m *writerModel) ruleW4(r *Rep, rule string) {
 			r.Fail(rule, key, c.Pos(wr.Pos()), "the underlying writer is written outside the emitting goroutine: block order and whole-block delivery are no longer guaranteed")
 		}
 	}
+}
+
+// wholeTransfer: "" if the call hands its bytes to the destination in one
+// Write; otherwise why not.
+func wholeTransfer(ins ssa.Instruction) string {
+	cc := callCommon(ins)
+	if cc == nil {
+		return ""
+	}
+	if cc.IsInvoke() {
+		if cc.Method.Name() == "Write" {
+			return ""
+		}
+		return "the underlying writer is driven through " + cc.Method.Name() + ", not Write"
+	}
+	g := staticCallee(cc)
+	if g == nil || g.Pkg == nil {
+		return ""
+	}
+	isBuf := func(v ssa.Value) bool {
+		if mi, ok := v.(*ssa.MakeInterface); ok {
+			v = mi.X
+		}
+		return strings.HasSuffix(v.Type().String(), "bytes.Buffer")
+	}
+	switch g.Pkg.Pkg.Path() + "." + g.Name() {
+	case "io.Copy":
+		if len(cc.Args) == 2 && isBuf(cc.Args[1]) {
+			return ""
+		}
+		return "io.Copy from a source that is not a *bytes.Buffer copies in 32 KiB pieces: a member can reach the underlying writer in several Writes"
+	case "bytes.WriteTo":
+		return ""
+	case "io.CopyN", "io.CopyBuffer":
+		return g.Name() + " hides the buffer's WriteTo and copies in pieces (32 KiB): a compressed member larger than that reaches the underlying writer in two or three Writes, and after the first of them the file ends in a partial block"
+	}
+	return ""
 }
 
 // W5: in the function that writes a block: Done never precedes the write;
